@@ -154,6 +154,9 @@ func init() {
 			}
 			e := fr.i.ex
 			x, y := e.abbrev(toF(a[0]), f64), e.abbrev(toF(a[1]), f64)
+			if x == y {
+				return true
+			}
 			return symB{"(or (fp.eq " + x + " " + y + ") (and (fp.isNaN " + x + ") (fp.isNaN " + y + ")))"}
 		},
 		".zzSameBits": func(fr *frame, a []value) value {
@@ -163,6 +166,9 @@ func init() {
 			}
 			e := fr.i.ex
 			x, y := e.abbrev(toF(a[0]), f64), e.abbrev(toF(a[1]), f64)
+			if x == y {
+				return true
+			}
 			return symB{"(= " + x + " " + y + ")"}
 		},
 		".zzIsNaN": func(fr *frame, a []value) value {
@@ -369,7 +375,9 @@ func (e *explorer) symStrEq(a, b string) value {
 				panic(unsupported("comparing atoms of different formats"))
 			}
 			// next pieces must be delimiters (non-numberish literal start or end)
-			conj = sAnd(conj, "(= "+ax.term+" "+ay.term+")")
+			if ax.term != ay.term {
+				conj = sAnd(conj, "(= "+ax.term+" "+ay.term+")")
+			}
 			pa, pb = pa[1:], pb[1:]
 		default:
 			// atom vs literal: take the maximal numberish prefix of the literal
